@@ -12,6 +12,8 @@ AlphaV2 == AlphaOf([Query |-> {"o", "p"}, T |-> {"s", "f"}, P |-> {"s"}, A |-> {
 AlphaV3 == AlphaOf([Subscription |-> {"ev", "evs"}, Mutation |-> {"m1", "m3"}, Query |-> {"s"}, T |-> {"s"}])
 ArgOptsV == [ f |-> {<<>>, <<ArgV("a", Lit("var", "n"))>>}, g |-> {<<ArgV("r", Lit("int", 2))>>, <<ArgV("r", Lit("var", "m"))>>},
               h |-> {<<ArgV("i", [t |-> "obj", v |-> << <<"r", Lit("int", 1)>> >>])>>,
+                     \* an explicit null for a nullable list of non-null items
+                     <<ArgV("i", [t |-> "obj", v |-> << <<"r", Lit("int", 1)>>, <<"ln", Lit("null", 0)>> >>])>>,
                      <<ArgV("i", [t |-> "obj", v |-> << <<"r", Lit("int", 1)>>, <<"l", [t |-> "list", v |-> <<Lit("int", 1), Lit("null", 0)>>]>>, <<"n", [t |-> "obj", v |-> << <<"r", Lit("var", "m")>> >>]>> >>])>>},
               ev |-> {<<>>} ]
 Dir(n, l) == [name |-> n, val |-> l]
